@@ -21,9 +21,16 @@ Proved (proof, partial) for the unary operation classes between ITERATION engine
     below the transfer that leads there (`Rel.prefTargetsGood`: that subtree is one the SQL tree-building
     theorems cover, e.g. anything the SQL factories built) - and `apply` with such a preferred engine,
     `backtrack` and `require_preferred_engine` in any combination, `transfer=False` (the default).
+  * `join_backtracking_sound`: back-tracking of a JOIN (`PartialJoin` with resolved common columns, fixed relation
+    in a SQL preferred engine) from an iteration-engine tree: `backtrack_unary` either leaves the tree alone or
+    returns a well-formed relation in the tree's engine with the columns and - as a multiset, a join defines no
+    order - the rows of joining at the root (induction over the tree: every commutation report of
+    `PartialJoin.commute` (C04), `_finish_apply` (C05), the SQL engine's join factory below the transfer (C17)).
 Excluded by hypothesis, not proved: a Projection back-tracked past a Deduplication (`spineNoDedup`;
-this is the unsound pair of C04, finding F04), joins (`PartialJoin`), and `transfer=True` towards a SQL
-preferred engine from an iteration-engine target: those are validated by correspondence + oracle.
+this is the unsound pair of C04, finding F04); for joins, the glue of `apply` around `backtrack_unary`
+(`_begin_apply` resolving the common columns, the fall-through when back-tracking does not finish) and payload-holding
+Transfers on the way (`spineNoPayload`); and `transfer=True` towards a SQL preferred engine from an iteration-engine
+target combined with back-tracking: those are validated by correspondence + oracle.
 
 Working out this induction is what exposed three genuine defects of the implementation (now
 repaired in /repo, see DESIGN.md section 12, #19, #21, #22): the statements below could not be
@@ -31,6 +38,7 @@ proved of the code as it was.
 -/
 import DafRel.Lemmas.Backtrack
 import DafRel.Lemmas.SqlApply
+import DafRel.Lemmas.BacktrackJoin
 import DafRel.Bridge.Ops
 import DafRel.Bridge.RelOps
 
@@ -111,8 +119,30 @@ theorem valid_operation_never_column_error (σ : Leaves) (st : Store) (fuel : Na
     (h : applyOp st (fuel+1) (.u o) t opts = .error e) : e = .engine ∨ e = .fuel ∨ e = .notImpl :=
   applyOp_error σ st fuel o t opts e hkt hpk hwf htr hop hnd h
 
+/-- **Back-tracking a join into a SQL preferred engine is sound.**  `p` is the partial join after `_begin_apply`
+(common columns resolved, within the fixed relation's columns); its fixed relation is any relation the SQL
+tree-building theorems cover, living in the preferred engine; `tree` is any well-formed, truthful tree on whose
+columns the join is applicable, whose transfers out of the preferred engine lead to such SQL relations and hold no
+payload yet.  Then `backtrack_unary` hands back the tree itself when it reports "not done", and when it reports
+"done" the returned relation is well-formed, lives in the tree's engine and has exactly the columns and - as a
+multiset - the rows of the join applied at the root. -/
+theorem join_backtracking_sound (σ : Leaves) (st : Store) (pref : Engine) (hpk : pref.kind = .sql) (p : PJoin)
+    (gF : Good NodeInv.triv σ p.fixed) (hfe : p.fixed.engine = pref)
+    (hres : p.join.resolved = true) (hfix : p.join.minCols.subset p.fixed.columns = true)
+    (fuel : Nat) (tree : Rel) (res : Res) (done : Bool)
+    (hwf : tree.WF) (htr : tree.Truthful σ) (hop : p.columnsRequired.subset tree.columns = true)
+    (hpo : tree.prefTargetsGood NodeInv.triv σ pref) (hnp : tree.spineNoPayload st)
+    (h : backtrack st fuel (.pj p) tree pref = .ok (res, done)) :
+    (done = false → res = .same) ∧
+    (done = true →
+      (res.get tree).WF ∧ (res.get tree).Truthful σ ∧ (res.get tree).engine = tree.engine ∧
+      List.Perm (sem σ (res.get tree)) (p.semRows (sem σ p.fixed) (sem σ tree)) ∧
+      (∀ x, x ∈ (res.get tree).columns ↔ x ∈ p.appliedColumns tree.columns)) := by
+  obtain ⟨h1, h2⟩ := backtrack_pj_sound σ st pref hpk p gF hfe hres hfix fuel tree res done hwf htr hop hpo hnp h
+  exact ⟨h1, fun hd => ⟨(h2 hd).wf, (h2 hd).truthful, (h2 hd).engine, (h2 hd).rows, (h2 hd).cols⟩⟩
+
 /-- Tie to the source: the `commute` methods that `backtrack_unary` consults - including
-`PartialJoin.commute`, whose soundness is validated rather than proved - are the current source's
+`PartialJoin.commute` (sound by C04's `partial_join_commute_sound`) - are the current source's
 (translators T-e / T-f). -/
 theorem bridge_commute_used_by_backtracking (p : PJoin) (cur : UOp) (tcols ccols : Cols) :
     Gen.PartialJoin_commute p cur tcols ccols = p.commute cur tcols ccols ∧
@@ -174,5 +204,21 @@ example : leaf0.WF ∧ transferSimplify es leaf0 = none ∧ leaf0.prefTargetsGoo
   ⟨trivial, rfl, trivial⟩
 example : (applyOp [] defaultFuel (.u (.sel (.ref tb))) leaf0 optsT).toOption.map
     (fun r => (r.get leaf0).engine == es) = some true := by decide +kernel
+
+/-- non-vacuity of `join_backtracking_sound`: the iteration-engine selection `treeI` over a relation transferred out
+of the SQL engine `es`; a join on `a` with the SQL table `leafF` is moved upstream of the selection, into the
+database below the transfer; the hypotheses hold -/
+private def leafF : Rel := .leaf 5 es [ta, tx] "F" 0 none true 0
+private def pjI : PJoin := ⟨⟨.lit true, [ta], some [ta]⟩, leafF, false⟩
+example (σ : Leaves) (hσ : leafS.Truthful σ) (hF : leafF.Truthful σ) :
+    Good NodeInv.triv σ pjI.fixed ∧ pjI.fixed.engine = es ∧ pjI.join.resolved = true ∧
+      pjI.join.minCols.subset pjI.fixed.columns = true ∧ pjI.columnsRequired.subset treeI.columns = true ∧
+      treeI.prefTargetsGood NodeInv.triv σ es ∧ treeI.spineNoPayload [] :=
+  ⟨Good.atom _ rfl trivial hF rfl trivial, rfl, by decide, by decide, by decide,
+   ⟨fun _ _ => Good.atom _ rfl trivial hσ rfl trivial, trivial⟩, ⟨rfl, trivial⟩⟩
+example : (backtrack [] defaultFuel (.pj pjI) treeI es).toOption.map
+    (fun r => r.2 && (match r.1.get treeI with
+      | .unary (.sel _) (.transfer _ _ (.select ..)) _ => true
+      | _ => false)) = some true := by decide +kernel
 
 end DafRel.Props.C03
